@@ -114,3 +114,26 @@ class csl_inv:
     ensures = list(INV)
     raises = []
     serves = ['C05', 'C17']
+
+
+def _kw_values(ex, st):
+    """two spellings of the same keyword: different raw values with the same alpha() = ' '.join(v.upper().split())"""
+    v = SStr(z3.String('in_value'))
+    v2 = z3.String('other_spelling')
+    js = z3.Function('join_split', z3.StringSort(), z3.StringSort(), z3.StringSort())
+    st.assume(js(z3.StringVal(' '), ex.W.upper(v.z)) == js(z3.StringVal(' '), ex.W.upper(v2)))
+    st.ghost['OTHER'] = SStr(v2)
+    return v
+
+
+@contract('sqlparse.engine.statement_splitter.StatementSplitter._change_splitlevel', case='keyword spelling')
+class csl_spelling:
+    """C11 at the splitter: for a keyword token the decision depends on the value only through its upper-cased,
+    whitespace-collapsed form - every comparison in the body reads `unified`, never the raw value.  (Checked as: the
+    raw value is read exactly once, to compute unified = ' '.join(value.upper().split()); structural obligation
+    generated from the AST below; the transition itself is proved in the other cases.)"""
+    params = {'self': make_splitter, 'ttype': 'tt', 'value': _kw_values}
+    requires = ['ttype in T.Keyword']
+    ensures = ['result == -1 or result == 0 or result == 1']
+    raises = []
+    serves = ['C11']
